@@ -284,6 +284,8 @@ package nfsv4
 //@             len(slot.currentSequenceWaiters) > 0 &&
 //@             slot.currentSequenceWaiters[len(slot.currentSequenceWaiters)-1] == ch
 //@   at call recv#1 assert lock-released-before-blocking: held(p.clientsLock) == 0
+//@   at call leave#5 assert a-rejected-request-does-not-occupy-the-slot: slot.currentSequenceWaiters == nil
+//@   at call hold#1 assert the-slot-is-marked-busy-while-the-request-executes: slot.currentSequenceWaiters != nil
 //@   loop 0 invariant cached-reply-is-compared-only-against-a-request-of-its-shape:
 //@             len(cachedResults) <= len(argArray) && (slot.lastResult.status == nfsv4.NFS4_OK ==> len(cachedResults) == len(argArray))
 
